@@ -129,7 +129,9 @@ func (e *aggregate) save(b []byte, value float64) []byte {
 }
 
 func (e *aggregate) IsConstant() bool {
-	return e.Wrapped.IsConstant()
+	// an aggregate keeps its state in the buffer even when it wraps a constant;
+	// treating it as constant made readers call Get(nil), which panics
+	return false
 }
 
 func (e *aggregate) DeAggregate() Expr {
